@@ -495,7 +495,7 @@ def rbstep_projection(trace, job):
 # ------------------------------------------------------------------------------------------
 # step-level conformance with Flurry.tla (Trace_Flurry)
 
-FL_OPS = {"insert", "get", "get_key_value", "contains_key", "remove", "remove_entry", "try_insert", "compute", "clear", "iter"}
+FL_OPS = {"insert", "get", "get_key_value", "contains_key", "remove", "remove_entry", "try_insert", "compute", "clear", "iter", "reserve"}
 
 
 def flurry_projection(trace, job, consts):
@@ -544,6 +544,13 @@ def flurry_projection(trace, job, consts):
     prog = {t: [] for t in range(nth + 1)}
     out = []
 
+    slot_ids, tnt_ids = {}, {}
+
+    def sid(m, a):
+        if a not in m:
+            m[a] = len(m) + 1
+        return m[a]
+
     def emit(t, ev):
         last_step[t] = len(out)
         out.append(ev)
@@ -575,8 +582,10 @@ def flurry_projection(trace, job, consts):
             if e["op"] == "compute" and f not in ("inc", "none", "const"):
                 return None
             o = {"op": e["op"], "k": e.get("k", 0) or 1, "tag": e.get("tag", 0), "v": e.get("v", 0), "pl": e.get("pl", 0), "f": f}
-            if e["op"] in ("clear", "iter"):
+            if e["op"] in ("clear", "iter", "reserve"):
                 o["k"] = 1
+            if e["op"] == "reserve":
+                o["pl"] = e.get("n", 0)
             prog[t].append(o)
             cur_op[t] = o
             out.append({"t": t + 1, "c": "call", "op": o["op"], "k": o["k"]})
@@ -659,7 +668,10 @@ def flurry_projection(trace, job, consts):
                 return None
             if "new" in e and e["new"]:
                 tables.add(e["new"])
-            emit(t, {"t": t + 1, "c": c, "nil": 1 if e.get("cur", 0) == 0 else 0})
+            ev2 = {"t": t + 1, "c": c, "nil": 1 if e.get("cur", 0) == 0 else 0}
+            if c == "ld_tnt":
+                ev2["s"] = sid(tnt_ids, a)
+            emit(t, ev2)
             continue
         if ty == "bin":
             if blk is not None and is_table_block(blk):
@@ -673,11 +685,17 @@ def flurry_projection(trace, job, consts):
                     continue         # reads under the bin lock are part of the critical section's action
                 if op == "clear" and node_field:
                     continue         # clear walks the list it has just unlinked (retiring the nodes)
-                emit(t, {"t": t + 1, "c": "ld_n" if node_field else "ld_b", "nil": 1 if e.get("cur", 0) == 0 else 0})
+                ev2 = {"t": t + 1, "c": "ld_n" if node_field else "ld_b", "nil": 1 if e.get("cur", 0) == 0 else 0}
+                if not node_field:
+                    ev2["s"] = sid(slot_ids, a)
+                emit(t, ev2)
             elif sk == "cas":
-                emit(t, {"t": t + 1, "c": "cas_b", "ok": 1 if e.get("ok") else 0})
+                emit(t, {"t": t + 1, "c": "cas_b", "ok": 1 if e.get("ok") else 0, "s": sid(slot_ids, a)})
             elif sk in ("store", "swap"):
-                emit(t, {"t": t + 1, "c": "st_n" if node_field else "st_b", "nil": 1 if e.get("new", 0) == 0 else 0})
+                ev2 = {"t": t + 1, "c": "st_n" if node_field else "st_b", "nil": 1 if e.get("new", 0) == 0 else 0}
+                if not node_field:
+                    ev2["s"] = sid(slot_ids, a)
+                emit(t, ev2)
             continue
         if ty == "value":
             if sk == "load":
@@ -698,4 +716,4 @@ def flurry_projection(trace, job, consts):
     maxk = max(keys) if keys else 1
     hashof = [(table[k] if k < len(table) else k) for k in range(1, maxk + 1)]
     return {"id": trace["id"], "nthreads": nth + 1, "prog": [prog[t] for t in range(nth + 1)], "hashof": hashof, "initkeys": [],
-            "n0": lay["n0"], "ev": out}
+            "n0": lay["n0"], "nslots": max(len(slot_ids), 1), "ntnts": max(len(tnt_ids), 1), "ev": out}
